@@ -447,6 +447,9 @@ fn run_tomb<K: KeyT, V: ValT>(a: &Args) {
                     }
                 }
             }
+            if rng.gen_bool(0.3) {
+                ex(&mut w, json!({"op":"Probe","s":1}));
+            }
             // now the interesting calls: key-adding calls (and friends) on a table that is full
             match rng.gen_range(0..6) {
                 0 => ex(&mut w, json!({"op":"Entry","s":1,"k":next_key,"chain":[{"m":"or_insert","v":1},{"m":"write","w":2}]})),
@@ -625,7 +628,7 @@ fn run_script<K: KeyT, V: ValT>(a: &Args) {
             _ => {
                 // strip observation fields so that a recorded trace can be used as a script
                 let mut o = op.as_object().cloned().unwrap();
-                for k in ["res", "st", "cost", "led", "obs", "calls", "yield", "cyield", "hints", "tail", "kid", "vid", "vids", "ids", "objs", "unused", "big", "par", "visits", "toks", "order", "dbg"] {
+                for k in ["res", "st", "cost", "led", "obs", "calls", "yield", "cyield", "hints", "tail", "kid", "vid", "vids", "ids", "objs", "unused", "big", "par", "visits", "toks", "order", "dbg", "mincap"] {
                     o.remove(k);
                 }
                 match w.resolve(&Value::Object(o)) {
